@@ -327,7 +327,7 @@ def cond_case(draw):
         case["cscale"] = [draw(st.sampled_from([0, 0, 1, -1, 9, -9, 17, -17])) for _ in range(p)]
         if draw(st.integers(0, 3)) == 0:
             # all coordinates in a minute (or huge) unit: determinants under- / overflow although nothing is ill-conditioned
-            base = draw(st.sampled_from([-95, -80, 70, 85]))
+            base = draw(st.sampled_from([-300, -270, -95, 85]))
             case["cscale"] = [base + draw(st.integers(-2, 2)) for _ in range(p)]
     if draw(st.integers(0, 3)) == 0:
         # integer-typed covariance (entries B B^T + d with integer B, d), possibly huge
